@@ -111,29 +111,51 @@ def gen_correlated(rng, N, D, exact):
     return X
 
 
+def affine_rank(X):
+    """exact rank of the centred data (Gaussian elimination over the rationals on x_i - x_0)"""
+    rows = [[v - w for v, w in zip(row, X[0])] for row in X[1:]]
+    rank, col, D = 0, 0, len(X[0])
+    while rows and col < D:
+        piv = next((r for r in rows if r[col] != 0), None)
+        if piv is None:
+            col += 1
+            continue
+        rows.remove(piv)
+        rows = [[v - piv[t] * (r[col] / piv[col]) for t, v in enumerate(r)] for r in rows]
+        rows = [r for r in rows if any(v != 0 for v in r)]
+        rank += 1
+        col += 1
+    return rank
+
+
 def gen_rank(rng, N, D, r):
-    """exact rank r (affine) data with integer coordinates: x = mean + sum_{q<r} a_q b_q"""
-    mean = [Fraction(rng.randint(-20, 20)) for _ in range(D)]
-    B = [[Fraction(rng.randint(-4, 4)) for _ in range(D)] for _ in range(r)]
-    X = []
-    for _ in range(N):
-        a = [Fraction(rng.randint(-6, 6)) for _ in range(r)]
-        X.append([mean[i] + sum(a[q] * B[q][i] for q in range(r)) for i in range(D)])
-    return X
+    """exact rank r (affine) data with integer coordinates: x = mean + sum_{q<r} a_q b_q.  The rank is checked exactly
+    (random integer directions can be dependent: rank < target_dimension is known finding F36, outside C06's quantifier)"""
+    while True:
+        mean = [Fraction(rng.randint(-20, 20)) for _ in range(D)]
+        B = [[Fraction(rng.randint(-4, 4)) for _ in range(D)] for _ in range(r)]
+        X = []
+        for _ in range(N):
+            a = [Fraction(rng.randint(-6, 6)) for _ in range(r)]
+            X.append([mean[i] + sum(a[q] * B[q][i] for q in range(r)) for i in range(D)])
+        if affine_rank(X) == min(r, D, N - 1):
+            return X
 
 
 def gen_rank_wide(rng, N, D, r):
     """exact rank r integer data whose retained variances spread over up to 6 decades (principal standard deviations
     1 : 32 : 1024, features 'in mixed units')"""
-    mean = [Fraction(rng.randint(-20, 20)) for _ in range(D)]
-    B = [[Fraction(rng.randint(-4, 4)) for _ in range(D)] for _ in range(r)]
-    w = [Fraction(1), Fraction(32), Fraction(1024)]
-    rng.shuffle(w)
-    X = []
-    for _ in range(N):
-        a = [Fraction(rng.randint(-6, 6)) * w[q % 3] for q in range(r)]
-        X.append([mean[i] + sum(a[q] * B[q][i] for q in range(r)) for i in range(D)])
-    return X
+    while True:
+        mean = [Fraction(rng.randint(-20, 20)) for _ in range(D)]
+        B = [[Fraction(rng.randint(-4, 4)) for _ in range(D)] for _ in range(r)]
+        w = [Fraction(1), Fraction(32), Fraction(1024)]
+        rng.shuffle(w)
+        X = []
+        for _ in range(N):
+            a = [Fraction(rng.randint(-6, 6)) * w[q % 3] for q in range(r)]
+            X.append([mean[i] + sum(a[q] * B[q][i] for q in range(r)) for i in range(D)])
+        if affine_rank(X) == min(r, D, N - 1):
+            return X
 
 
 def gen_offset_data(rng, N, D, kind, exact, n_head=3):
